@@ -152,6 +152,14 @@ def _run_unit_once(unit_path, repo_root="/repo", rlimit=None, extra_args=(), tag
         res.reason = "unsupported-construct: " + "; ".join(msgs[:3])
         res.wall_s = time.time() - t0
         return res
+    rustc_errs = re.findall(r"^error\[E\d+\]: .*$", p.stderr, re.M)
+    if rustc_errs:
+        # a rustc (type/borrow/const) error in the emitted file: the extracted text no longer fits the unit's
+        # opaque views or the supported subset -- nothing was decided about the property
+        res.status = "undecided"
+        res.reason = "unsupported-construct: rustc " + "; ".join(rustc_errs[:3])
+        res.wall_s = time.time() - t0
+        return res
     any_def = False
     any_rlimit = False
     for msg, lines, gutter, block in _parse_errors(p.stderr, path):
